@@ -164,7 +164,7 @@ def run(ctx):
     fams = {}
     for name in QUICK_FAMILIES:
         fams[name] = dict(vmfam.FAMILIES[name])
-        if not ctx.quick:
+        if not ctx.quick and name not in ('bigmap', 'bigset', 'dipops'):      # the large-member families keep their depth (alphabets of 40-90 compound steps)
             fams[name]['depth'] += 1
     run_families(ctx, 'C01', 'core', fams)
     ctx.exhaustive = True
